@@ -7,8 +7,12 @@ package corerad
 
 import (
 	"fmt"
+	"net"
 	"net/netip"
+	"os"
 	"sort"
+	"strings"
+	"syscall"
 	"testing"
 	"testing/synctest"
 	"time"
@@ -22,13 +26,13 @@ import (
 )
 
 type advCfg struct {
-	MinNS       int64  `json:"min_ns"`
-	MaxNS       int64  `json:"max_ns"`
-	UnicastOnly bool   `json:"unicast_only,omitempty"`
-	LifeS       int64  `json:"life_s"`
-	Verbose     bool   `json:"verbose,omitempty"`
-	RA          vRA    `json:"ra"` // header fields and static options
-	NoLLA       bool   `json:"no_lla,omitempty"`
+	MinNS       int64 `json:"min_ns"`
+	MaxNS       int64 `json:"max_ns"`
+	UnicastOnly bool  `json:"unicast_only,omitempty"`
+	LifeS       int64 `json:"life_s"`
+	Verbose     bool  `json:"verbose,omitempty"`
+	RA          vRA   `json:"ra"` // header fields and static options
+	NoLLA       bool  `json:"no_lla,omitempty"`
 }
 
 func (c advCfg) iface(name string) config.Interface {
@@ -105,28 +109,29 @@ type advEvent struct {
 }
 
 type latRule struct {
-	Dst string `json:"dst"` // unicast multicast any
-	N   int    `json:"n"`   // n-th matching write on a connection (-1 = every)
-	NS  int64  `json:"ns"`
-	Err string `json:"err,omitempty"` // if set, the write fails with this error kind after the latency
-	From      bool `json:"from,omitempty"`            // the n-th matching write and every later one (an outage, not a single fault)
-	FirstConn bool `json:"first_conn_only,omitempty"` // only on the first connection (the link works again after the re-dial)
+	Dst       string `json:"dst"` // unicast multicast any
+	N         int    `json:"n"`   // n-th matching write on a connection (-1 = every)
+	NS        int64  `json:"ns"`
+	Err       string `json:"err,omitempty"`             // if set, the write fails with this error kind after the latency
+	From      bool   `json:"from,omitempty"`            // the n-th matching write and every later one (an outage, not a single fault)
+	FirstConn bool   `json:"first_conn_only,omitempty"` // only on the first connection (the link works again after the re-dial)
 }
 
 type advScenario struct {
-	Cfg       advCfg     `json:"cfg"`
-	Fwd0      bool       `json:"forwarding_at_start"`
-	Events    []advEvent `json:"events"`
-	StopNS    int64      `json:"stop_ns"`
-	Terminate bool       `json:"terminate"`
-	Lat       []latRule  `json:"write_rules,omitempty"`
-	DialFail  []string   `json:"dial_failures,omitempty"` // outcome of dial attempt i ("" = ok): notready syscall perm other
-	TailNS    int64      `json:"tail_ns,omitempty"`       // keep the world alive after Run returned
-	WaitNS    int64      `json:"wait_ns,omitempty"`       // how long to wait for Run to return after the stop (default 30s)
-	NoStop    bool       `json:"no_stop,omitempty"`       // never cancel: Run must end on its own (fatal error scenarios)
-	StateDelayNS int64   `json:"state_delay_ns,omitempty"`
-	Extra     []advCfg   `json:"extra_interfaces,omitempty"` // further interfaces known to metrics / debug API (eth1, eth2, ...)
-	Before    []string   `json:"interfaces_before,omitempty"` // non-advertising interfaces configured before eth0: "monitor" or "idle" (named pre0, pre1, ...)
+	Cfg          advCfg     `json:"cfg"`
+	Fwd0         bool       `json:"forwarding_at_start"`
+	Events       []advEvent `json:"events"`
+	StopNS       int64      `json:"stop_ns"`
+	Terminate    bool       `json:"terminate"`
+	Lat          []latRule  `json:"write_rules,omitempty"`
+	DialFail     []string   `json:"dial_failures,omitempty"` // outcome of dial attempt i ("" = ok): notready syscall perm other
+	TailNS       int64      `json:"tail_ns,omitempty"`       // keep the world alive after Run returned
+	WaitNS       int64      `json:"wait_ns,omitempty"`       // how long to wait for Run to return after the stop (default 30s)
+	NoStop       bool       `json:"no_stop,omitempty"`       // never cancel: Run must end on its own (fatal error scenarios)
+	StateDelayNS int64      `json:"state_delay_ns,omitempty"`
+	StateAfterNS int64      `json:"state_after_ns,omitempty"`    // a forwarding read samples the value at once and returns this much later
+	Extra        []advCfg   `json:"extra_interfaces,omitempty"`  // further interfaces known to metrics / debug API (eth1, eth2, ...)
+	Before       []string   `json:"interfaces_before,omitempty"` // non-advertising interfaces configured before eth0: "monitor" or "idle" (named pre0, pre1, ...)
 }
 
 type advDelivered struct {
@@ -158,6 +163,12 @@ func vkErrOf(kind string) error {
 		return vkTimeout{}
 	case "syscall":
 		return vkErrSyscall
+	case "syscall:EINTR", "syscall:EMFILE", "syscall:ENFILE", "syscall:ENOBUFS", "syscall:EIO", "syscall:ENODEV", "syscall:ENETDOWN":
+		// in the shape a socket read really fails with (x/net/ipv6 wraps the system call error in a *net.OpError):
+		// for EINTR, EMFILE and ENFILE the error reports Temporary() although it is not a timeout
+		errno := map[string]syscall.Errno{"EINTR": syscall.EINTR, "EMFILE": syscall.EMFILE, "ENFILE": syscall.ENFILE, "ENOBUFS": syscall.ENOBUFS,
+			"EIO": syscall.EIO, "ENODEV": syscall.ENODEV, "ENETDOWN": syscall.ENETDOWN}[strings.TrimPrefix(kind, "syscall:")]
+		return &net.OpError{Op: "read", Net: "ip6:ipv6-icmp", Err: os.NewSyscallError("recvmsg", errno)}
 	case "perm":
 		return vkErrPermission
 	case "notready":
@@ -230,6 +241,7 @@ func runAdvertiser(t *testing.T, sc advScenario, hook func(w *simWorld, a *Adver
 		w.fwd["eth0"] = sc.Fwd0
 		w.eventf("config: min=%v max=%v unicast_only=%v lifetime=%ds forwarding=%v write-rules=%+v dial=%v", time.Duration(sc.Cfg.MinNS), time.Duration(sc.Cfg.MaxNS), sc.Cfg.UnicastOnly, sc.Cfg.LifeS, sc.Fwd0, sc.Lat, sc.DialFail)
 		w.stDelay = time.Duration(sc.StateDelayNS)
+		w.stAfter = time.Duration(sc.StateAfterNS)
 		counts := map[[2]interface{}]int{}
 		rule := func(conn, n int, dst netip.Addr) *latRule {
 			kind := "unicast"
@@ -424,8 +436,8 @@ func (r *advResult) counter(series, key string) float64 {
 }
 
 const (
-	serRAs      = "corerad_advertiser_router_advertisements_total"
-	serRecv     = "corerad_advertiser_messages_received_total"
-	serErrors   = "corerad_advertiser_errors_total"
-	serLastMC   = "corerad_advertiser_last_multicast_timestamp_seconds"
+	serRAs    = "corerad_advertiser_router_advertisements_total"
+	serRecv   = "corerad_advertiser_messages_received_total"
+	serErrors = "corerad_advertiser_errors_total"
+	serLastMC = "corerad_advertiser_last_multicast_timestamp_seconds"
 )
